@@ -66,6 +66,14 @@ Definition dispatcher_check (c : cfg) (m : msg) : dverdict :=
   else if byte_size (msg_version c) m >? c_max_message_bytes c then DRejectTooLarge
   else DForward.
 
+(* Producer.Interceptors run in the dispatcher on the first pass of a message, BEFORE the checks above: what is tested
+   (and what travels on) is the message as the interceptor chain left it.  Interceptors are user code: functions. *)
+Definition interceptor := msg -> msg.
+Definition intercept (chain : list interceptor) (m : msg) : msg := fold_left (fun m f => f m) chain m.
+(* the dispatcher's verdict on an application message, and the message it forwards *)
+Definition dispatcher_admit (c : cfg) (chain : list interceptor) (m : msg) : dverdict * msg :=
+  let m' := intercept chain m in (dispatcher_check c m', m').
+
 (* ---------- produceSet ---------- *)
 Record pset := { ps_msgs : list msg; ps_bytes : Z }.
 Record produce_set := {
